@@ -315,19 +315,21 @@ def job_histories(first, h):
             acc.validated += 1
             acc.nontrivial += 1
             # one GherkinEvents (also with its parser in stop-at-first-error mode)
-            for stop in (False, True):
-              ge = GherkinEvents(GherkinEvents.Options(print_source=False, print_ast=True, print_pickles=True))
+            for stop, with_pickles in ((False, True), (True, True), (False, False)):
+              ge = GherkinEvents(GherkinEvents.Options(print_source=False, print_ast=True, print_pickles=with_pickles))
               ge.parser.stop_at_first_error = stop
               seen = set()
+              total, dense = 0, True
               for i in hist:
-                  r = I.events(POOL[i], ge=ge)
+                  r = I.events(POOL[i], ge=ge, opts=(False, True, with_pickles))
                   if r[0] != 'ok':
                       acc.violation('stream-exception', case, r[1])
                       break
                   evs = [e for e in r[1] if 'source' not in e]
-                  want = [e for e in solos[i] if 'source' not in e]
+                  want = [e for e in solos[i] if 'source' not in e and (with_pickles or 'pickle' not in e)]
                   off = offset_of(evs, want)
                   if stop and want and 'parseError' in want[0]:
+                      dense = False
                       if not evs or any('parseError' not in e for e in evs):
                           acc.violation('history-ids', case, 'rejected document %d in stop-at-first-error mode does not yield parse errors only' % i)
                           break
@@ -345,6 +347,16 @@ def job_histories(first, h):
                       acc.violation('history-id-reuse', case, 'ids reused across documents of one stream: %s' % sorted(new & seen)[:5])
                       break
                   seen |= new
+                  # all ids of one stream are 0, 1, 2, ... without gaps: an accepted document starts where the accepted documents before it
+                  # ended (ids are only drawn for what the stream was asked to produce; a rejected document may have drawn some)
+                  if evs and 'parseError' in evs[0]:
+                      dense = False
+                  elif dense and new:
+                      if off != total:
+                          acc.violation('stream-ids-not-dense', case, 'document %d of the history (pickles %s): its ids start at %d, the accepted documents before it used 0..%d'
+                                        % (i, 'on' if with_pickles else 'off', off, total - 1))
+                          break
+                      total += len(new)
                   acc.states.add(('offset>0', off > 0, i))
                   acc.trans.add((i, off > 0, len(new) > 0))
             # one Parser + Compiler pair sharing a generator
@@ -366,6 +378,38 @@ def job_histories(first, h):
                     acc.violation('history-id-reuse', case, 'ids reused across documents parsed by one parser/compiler pair')
                     break
                 seen |= new
+            # a generator of the caller's own making (same protocol - get_next_id() returning decimal strings - but not derived from the
+            # library's class): either it is refused outright (TypeError) or every id comes from it; silently numbering from elsewhere is not an option
+            class OwnIds:
+                def __init__(self):
+                    self.n = 0
+
+                def get_next_id(self):
+                    self.n += 1
+                    return str(self.n - 1)
+            try:
+                ig = OwnIds()
+                p = Parser(AstBuilder(ig))
+                c = Compiler(ig)
+            except TypeError:
+                p = None
+            if p is not None:
+                for i in hist:
+                    off = ig.n
+                    try:
+                        d = p.parse(I.StringScanner(POOL[i]))
+                        d['uri'] = 'u'
+                        pk = c.compile(d)
+                    except ParserError:
+                        continue
+                    except TypeError:
+                        break
+                    check_ids(d, pk, acc, dict(case, generator='caller-defined class'), base=off)
+                    n_ids = len(collect(d, {})) + len(pk) + sum(len(x['steps']) for x in pk)
+                    if ig.n - off != n_ids:
+                        acc.violation('foreign-ids', dict(case, generator='caller-defined class'),
+                                      'the document carries %d ids but the generator it was given handed out %d' % (n_ids, ig.n - off))
+                        break
             # the default wiring: Parser() builds its own AST builder and id generator; the documents it parses are one stream
             p = Parser()
             seen = set()
